@@ -33,7 +33,7 @@ RULE = ("case = (documented name, spelling in {as documented, all '_', all '-', 
         " Round-5 classes: a 'threads' kind - 3..6 sibling names loaded by as many threads of one process while the fake server holds every response until all requests are in flight."
         " Round-6 classes: data homes with several trailing components that do not exist yet (~/.cache/tw/cache-v1, data/sets/tw-cache).")
 REQUIRED_MONITORS = ["c18:bundled", "c18:remote", "c18:pinned_checksum_enforced", "c18:all_in_one_home",
-                     "c18:undocumented", "c18:default_home", "c18:substitution_wrapper", "c18:switch_home", "c18:tilde_home", "c18:relative_home", "c18:description_accessors", "c18:threads"]
+                     "c18:undocumented", "c18:default_home", "c18:substitution_wrapper", "c18:switch_home", "c18:tilde_home", "c18:relative_home", "c18:description_accessors", "c18:threads", "c18:no_home"]
 ASSUMPTIONS = ["the served payloads are synthetic; what is observed is the loader's behaviour per name, not the remote files"]
 NPARTS = 12
 
@@ -41,7 +41,7 @@ NPARTS = 12
 def plan(tier, seed):
     specs = [{"kind": "names", "part": p, "parts": NPARTS} for p in range(NPARTS)]
     specs += [{"kind": "one_home"}, {"kind": "undocumented"}, {"kind": "default_home"}, {"kind": "switch_home"},
-              {"kind": "tilde_home"}, {"kind": "threads"}]
+              {"kind": "tilde_home"}, {"kind": "threads"}, {"kind": "no_home"}]
     return specs
 
 
@@ -335,6 +335,48 @@ def run_default_home(ctx):
         shutil.rmtree(scratch, ignore_errors=True)
 
 
+def run_no_home(ctx):
+    """the data home cannot be created (read-only container, service user with HOME=/nonexistent; here: a path beneath a
+    regular file, which also defeats root): the BUNDLED datasets need no cache and must load all the same, and unknown
+    names are still refused with ValueError"""
+    names = [n for _t, n in _ds.documented_names() if _ds.is_bundled(n)]
+    rng = ctx.rng("nohome", 0)
+    pick = [names[i] for i in rng.choice(len(names), size=min(8, len(names)), replace=False)]
+    scratch = _ds.scratch_root()
+    try:
+        blocker = os.path.join(scratch, "not-a-directory")
+        open(blocker, "w").close()
+        for mode, extra in (("tilde", {"user_home": os.path.join(blocker, "home"), "tilde_value": os.path.join(blocker, "cache")}),
+                            ("default", {})):
+            steps = [{"op": "net", "default": "urlerror"}]
+            for n in pick:
+                steps.append({"op": "by_name", "name": n} if rng.integers(0, 2) else {"op": "by_name", "name": n, "unpack": bool(rng.integers(0, 2))})
+            steps.append({"op": "by_name", "name": "no-such-dataset"})
+            spec = dict({"home": os.path.join(blocker, "home"), "home_mode": mode, "steps": steps}, **extra)
+            rc, out, err = _ds.run_child(spec, scratch)
+            if out is None:
+                raise RuntimeError("dataset child failed rc=%s: %s" % (rc, err))
+            res = out["results"][1:]
+            for n, r in zip(pick, res):
+                cid = {"kind": "no_home", "name": n, "home_mode": mode, "seed": ctx.seed}
+                ctx.judged()
+                ctx.monitor("c18:no_home")
+                if r.get("outcome") != "ok":
+                    ctx.violation("bundled_dataset_needs_a_data_home", cid, {"exception": r.get("exc_type"), "message": r.get("exc_msg")})
+                    continue
+                if r["requests"]:
+                    ctx.violation("bundled_dataset_used_the_network", cid, {"requests": r["requests"]})
+                    continue
+                ctx.nontriv("no_home", mode, n)
+            last = res[len(pick)]
+            if last.get("outcome") != "exc" or last.get("exc_type") != "ValueError":
+                ctx.violation("unknown_name_not_refused_with_ValueError", {"kind": "no_home", "home_mode": mode, "seed": ctx.seed},
+                              {"outcome": last.get("outcome"), "exception": last.get("exc_type"), "message": last.get("exc_msg")})
+        ctx.sample({"no_home": "TRAFFIC_WEAVER_DATA / HOME beneath a regular file", "names": pick})
+    finally:
+        shutil.rmtree(scratch, ignore_errors=True)
+
+
 def run_switch_home(ctx):
     """TRAFFIC_WEAVER_DATA changed between loads of one process: every load must use the directory named at that time"""
     names = [n for _t, n in _ds.documented_names() if not _ds.is_bundled(n)]
@@ -498,6 +540,8 @@ def run(ctx, spec):
     k = spec["kind"]
     if k == "threads":
         return run_threads(ctx)
+    if k == "no_home":
+        return run_no_home(ctx)
     if k == "tilde_home":
         return run_tilde_home(ctx)
     if k == "switch_home":
@@ -516,6 +560,8 @@ def replay(ctx, case):
     k = case["kind"]
     if k == "threads":
         return run_threads(ctx)
+    if k == "no_home":
+        return run_no_home(ctx)
     if k == "tilde_home":
         return run_tilde_home(ctx)
     if k == "switch_home":
